@@ -1,9 +1,15 @@
 mod c03;
+mod shapes;
+mod toggles;
+mod worker;
 
 fn main() {
     let args: Vec<String> = std::env::args().skip(1).collect();
     let id = args.first().cloned().unwrap_or_default();
     vcore::quiet_panics();
+    if id == "c03-worker" {
+        std::process::exit(worker::main(&args[1..]));
+    }
     let ctx = vcore::Ctx::new(&id, &args[1.min(args.len())..]);
     match id.as_str() {
         "C03" => c03::run(&ctx),
